@@ -24,8 +24,16 @@ func TestMain(m *testing.M) {
 
 var st = stats.New("agreement")
 
-func prop(t *rapid.T) {
-	sc := dagen.GenScenario(t, 3, dagen.Params{MinEvents: 30, MaxEvents: 120, Forks: dagen.MinorityFork, NonMaxFrames: true})
+func prop(t *rapid.T) { propWith(t, "") }
+
+// propShapes runs the same property on the rare large shapes: 65-70 validators, a block confirming several
+// hundred events, a validator with 66-70 same-sequence events.
+func propShapes(t *rapid.T) {
+	propWith(t, dagen.DrawShape(t, "many_validators"))
+}
+
+func propWith(t *rapid.T, shape string) {
+	sc := dagen.GenScenario(t, 3, dagen.Params{MinEvents: 30, MaxEvents: 120, Forks: dagen.MinorityFork, NonMaxFrames: true, Shape: shape})
 	for _, p := range sc.Epochs {
 		if p.Elect.Broken != "" {
 			t.Fatalf("reference met a >=1/3-Byzantine state although forkers hold < 1/3: %s", p.Elect.Broken)
@@ -141,6 +149,9 @@ func prop(t *rapid.T) {
 	if builtFrames {
 		classes = append(classes, "frames_assigned_by_build")
 	}
+	if sh := sc.Epochs[0].Info.Shape; sh != "" {
+		classes = append(classes, "shape_"+sh)
+	}
 	st.Case(stats.Hash(scen.DescribeScenario(sc)), totalBlocks >= 2 && ordersDiffer, classes...)
 	st.Class("blocks", int64(totalBlocks))
 	st.Sample(func() interface{} {
@@ -149,3 +160,5 @@ func prop(t *rapid.T) {
 }
 
 func TestC01Agreement(t *testing.T) { rapid.Check(t, prop) }
+
+func TestC01Shapes(t *testing.T) { rapid.Check(t, propShapes) }
